@@ -866,6 +866,51 @@ func runC11(c *Ctx) {
 	flow := c11NewFlow(c, roles, fns)
 	sites := c11R1(c, flow)
 	c11R3(c, flow, sites)
+	c11R4(c, fns)
+}
+
+// ---------- R4 ----------
+
+// c11R4: "with default options" — the property is about stores on which the
+// caller did not ask for path traversal.  The package itself must therefore
+// never switch the option on: every store into Store.AllowPathTraversalOnWrite
+// made by package code (constructors, composite literals, option helpers) is the
+// constant false, and the field's address does not leave the accessors.
+func c11R4(c *Ctx, fns []*ssa.Function) {
+	const R4 = "C11.R4.traversal-off-by-default"
+	ok, why, pos := true, "", token.NoPos
+	n := 0
+	for _, f := range fns {
+		AllInstrs(f, func(in ssa.Instruction) {
+			fa, isFA := in.(*ssa.FieldAddr)
+			if !isFA || fieldName(fa.X.Type(), fa.Field) != c11AllowField {
+				return
+			}
+			for _, ref := range *fa.Referrers() {
+				switch u := ref.(type) {
+				case *ssa.UnOp:
+					n++ // a read
+				case *ssa.Store:
+					if u.Addr != ssa.Value(fa) {
+						ok, why, pos = false, "the address of the option is stored away in "+FnName(f), u.Pos()
+						continue
+					}
+					k, isK := u.Val.(*ssa.Const)
+					if !isK || k.Value == nil || constant.BoolVal(k.Value) {
+						ok, why, pos = false, FnName(f)+" sets Store.AllowPathTraversalOnWrite to "+describe(u.Val)+": a store the caller left at its defaults accepts names and entries resolving outside the working directory", u.Pos()
+					}
+				case *ssa.DebugRef:
+				default:
+					ok, why, pos = false, "the address of the option escapes in "+FnName(f)+" ("+describe(ref.(ssa.Value))+")", ref.Pos()
+				}
+			}
+		})
+	}
+	if n == 0 {
+		c.LostAnchor(R4, "a read of ~/content/file.Store.AllowPathTraversalOnWrite in the package")
+		return
+	}
+	c.Check(R4, "package|never-enables-traversal", pos, ok, ifelse(ok, "no package code writes the option; it is only read (by the write-path sanitiser)", why))
 }
 
 // ---------- R1 ----------
@@ -2801,6 +2846,10 @@ func c11NoFollowGuard(p *Prog, flow *c11Flow, fn *ssa.Function, sink ssa.CallIns
 }
 
 var c11Mutants = []Mutant{
+	// R4
+	{Name: "constructor-enables-traversal", File: "content/file/file.go",
+		Old: "\t\tworkingDir:      workingDirAbs,\n", New: "\t\tworkingDir:      workingDirAbs,\n\t\tAllowPathTraversalOnWrite: fallbackStorage != nil,\n",
+		Expect: "C11.R4.traversal-off-by-default|package|never-enables-traversal"},
 	// R1
 	{Name: "writepath-error-conditionally-ignored", File: "content/file/file.go",
 		Old:    "\ttarget, err := s.resolveWritePath(name)\n\tif err != nil {",
